@@ -8,6 +8,7 @@
 package keeper
 
 //@ import types "github.com/ovrclk/akash/x/escrow/types"
+//@ import keeper "github.com/ovrclk/akash/x/escrow/keeper"
 
 // ---- spec functions -------------------------------------------------------
 
@@ -85,3 +86,142 @@ package keeper
 //@   loop 1 invariant forall j: int :: iter <= j && j < len(payments) ==> payments[j] == old(payments[j])
 
 //@ property C02 := accountSettleFullblocks#*, accountSettleDistributeWeighted#*, accountSettleDistributeEvenly#*
+
+// ---- store layout ----------------------------------------------------------
+
+// abstract key functions (the byte-level definitions and their injectivity /
+// prefix lemmas are the subject of C06; here they are related by axioms)
+//@ spec aKey(id: types.AccountID): str
+//@ spec pKey(id: types.AccountID, pid: str): str
+//@ spec apKey(id: types.AccountID): str
+
+//@ func accountKey
+//@   trusted
+//@   ensures result == aKey(id)
+//@ func paymentKey
+//@   trusted
+//@   ensures result == pKey(id, pid)
+//@ func accountPaymentsKey
+//@   trusted
+//@   ensures result == apKey(id)
+
+//@ func (*keeper).GetAccount
+//@   ensures [found] KVhas[k.skey][aKey(id)] ==> result1 == nil && result0 == decode(types.Account, KVval[k.skey][aKey(id)])
+//@   ensures [missing] !KVhas[k.skey][aKey(id)] ==> result1 != nil
+
+//@ func (*keeper).GetPayment
+//@   ensures [found] KVhas[k.skey][pKey(id, pid)] ==> result1 == nil && result0 == decode(types.Payment, KVval[k.skey][pKey(id, pid)])
+//@   ensures [missing] !KVhas[k.skey][pKey(id, pid)] ==> result1 != nil
+
+// keys of the two record kinds never coincide (first byte 0x01 / 0x02); weight of a
+// record = its recorded coin balance
+//@ spec keyKind(key: str): int
+//@ axiom keyKindAccount: forall id: types.AccountID :: keyKind(aKey(id)) == 1
+//@ axiom keyKindPayment: forall id: types.AccountID, pid: str :: keyKind(pKey(id, pid)) == 2
+//@ axiom weightAccount: forall k: str, v: str, d: str :: keyKind(k) == 1 ==>
+//@          storeWeight(k, true, v, d) == ite(decode(types.Account, v).Balance.Denom == d, decode(types.Account, v).Balance.Amount, 0)
+//@ axiom weightPayment: forall k: str, v: str, d: str :: keyKind(k) == 2 ==>
+//@          storeWeight(k, true, v, d) == ite(decode(types.Payment, v).Balance.Denom == d, decode(types.Payment, v).Balance.Amount, 0)
+
+//@ func (*keeper).saveAccount
+//@   modifies ghost KVhas, ghost KVval, ghost G
+//@   ensures KVhas == old(KVhas)[k.skey := old(KVhas)[k.skey][aKey(obj.ID) := true]]
+//@   ensures KVval == old(KVval)[k.skey := old(KVval)[k.skey][aKey(obj.ID) := encode(*obj)]]
+//@   ensures [g] forall d: str :: G[k.skey][d] == old(G)[k.skey][d]
+//@                - storeWeight(aKey(obj.ID), old(KVhas)[k.skey][aKey(obj.ID)], old(KVval)[k.skey][aKey(obj.ID)], d)
+//@                + ite(obj.Balance.Denom == d, obj.Balance.Amount, 0)
+//@   ensures [gframe] forall sk: iface :: sk != k.skey ==> G[sk] == old(G)[sk]
+
+//@ func (*keeper).savePayment
+//@   modifies ghost KVhas, ghost KVval, ghost G
+//@   ensures KVhas == old(KVhas)[k.skey := old(KVhas)[k.skey][pKey(obj.AccountID, obj.PaymentID) := true]]
+//@   ensures KVval == old(KVval)[k.skey := old(KVval)[k.skey][pKey(obj.AccountID, obj.PaymentID) := encode(*obj)]]
+//@   ensures [g] forall d: str :: G[k.skey][d] == old(G)[k.skey][d]
+//@                - storeWeight(pKey(obj.AccountID, obj.PaymentID), old(KVhas)[k.skey][pKey(obj.AccountID, obj.PaymentID)], old(KVval)[k.skey][pKey(obj.AccountID, obj.PaymentID)], d)
+//@                + ite(obj.Balance.Denom == d, obj.Balance.Amount, 0)
+//@   ensures [gframe] forall sk: iface :: sk != k.skey ==> G[sk] == old(G)[sk]
+
+// ---- bank (assumed, A-BANK): moves exactly amt or fails without effect ------
+//@ extern keeper.(BankKeeper).SendCoinsFromModuleToAccount(recv, ctx, senderModule, recipientAddr, amt)
+//@   requires len(amt) <= 1
+//@   modifies ghost Mod, ghost Bank
+//@   ensures result != nil ==> Mod == old(Mod) && Bank == old(Bank)
+//@   ensures result == nil && len(amt) == 0 ==> Mod == old(Mod) && Bank == old(Bank)
+//@   ensures result == nil && len(amt) == 1 ==> Mod == old(Mod)[senderModule := old(Mod)[senderModule][amt[0].Denom := old(Mod)[senderModule][amt[0].Denom] - amt[0].Amount]]
+//@   ensures result == nil && len(amt) == 1 ==> Bank == old(Bank)[recipientAddr := old(Bank)[recipientAddr][amt[0].Denom := old(Bank)[recipientAddr][amt[0].Denom] + amt[0].Amount]]
+//@ extern keeper.(BankKeeper).SendCoinsFromAccountToModule(recv, ctx, senderAddr, recipientModule, amt)
+//@   requires len(amt) <= 1
+//@   modifies ghost Mod, ghost Bank
+//@   ensures result != nil ==> Mod == old(Mod) && Bank == old(Bank)
+//@   ensures result == nil && len(amt) == 0 ==> Mod == old(Mod) && Bank == old(Bank)
+//@   ensures result == nil && len(amt) == 1 ==> Mod == old(Mod)[recipientModule := old(Mod)[recipientModule][amt[0].Denom := old(Mod)[recipientModule][amt[0].Denom] + amt[0].Amount]]
+//@   ensures result == nil && len(amt) == 1 ==> Bank == old(Bank)[senderAddr := old(Bank)[senderAddr][amt[0].Denom := old(Bank)[senderAddr][amt[0].Denom] - amt[0].Amount]]
+
+// ---- withdrawals: pay out the recorded balance, zero it, persist the record ----
+//@ func (*keeper).paymentWithdraw
+//@   requires obj.Balance.Amount >= 0
+//@   modifies *obj, ghost KVhas, ghost KVval, ghost G, ghost Mod, ghost Bank
+//@   ensures [fail] result != nil ==> *obj == old(*obj) && KVhas == old(KVhas) && KVval == old(KVval) && G == old(G) && Mod == old(Mod) && Bank == old(Bank)
+//@   ensures [obj] result == nil ==> *obj == upd(upd(old(*obj), Balance.Amount, 0), Withdrawn.Amount, old(obj.Withdrawn.Amount) + old(obj.Balance.Amount))
+//@   ensures [saved] result == nil ==> KVhas == old(KVhas)[k.skey := old(KVhas)[k.skey][pKey(obj.AccountID, obj.PaymentID) := true]]
+//@                              && KVval == old(KVval)[k.skey := old(KVval)[k.skey][pKey(obj.AccountID, obj.PaymentID) := encode(*obj)]]
+//@   ensures [bank] result == nil ==> Mod == old(Mod)["escrow" := old(Mod)["escrow"][obj.Balance.Denom := old(Mod)["escrow"][obj.Balance.Denom] - old(obj.Balance.Amount)]]
+//@                              && Bank == old(Bank)[unbech32(obj.Owner) := old(Bank)[unbech32(obj.Owner)][obj.Balance.Denom := old(Bank)[unbech32(obj.Owner)][obj.Balance.Denom] + old(obj.Balance.Amount)]]
+//@   ensures [g] result == nil ==> (forall d: str :: G[k.skey][d] == old(G)[k.skey][d]
+//@                - storeWeight(pKey(obj.AccountID, obj.PaymentID), old(KVhas)[k.skey][pKey(obj.AccountID, obj.PaymentID)], old(KVval)[k.skey][pKey(obj.AccountID, obj.PaymentID)], d))
+//@   ensures [gframe] forall sk: iface :: sk != k.skey ==> G[sk] == old(G)[sk]
+
+//@ func (*keeper).accountWithdraw
+//@   requires obj.Balance.Amount >= 0
+//@   modifies *obj, ghost KVhas, ghost KVval, ghost G, ghost Mod, ghost Bank
+//@   ensures [fail] result != nil ==> *obj == old(*obj) && KVhas == old(KVhas) && KVval == old(KVval) && G == old(G) && Mod == old(Mod) && Bank == old(Bank)
+//@   ensures [obj] result == nil ==> *obj == upd(old(*obj), Balance.Amount, 0)
+//@   ensures [saved] result == nil ==> KVhas == old(KVhas)[k.skey := old(KVhas)[k.skey][aKey(obj.ID) := true]]
+//@                              && KVval == old(KVval)[k.skey := old(KVval)[k.skey][aKey(obj.ID) := encode(*obj)]]
+//@   ensures [bank] result == nil ==> Mod == old(Mod)["escrow" := old(Mod)["escrow"][obj.Balance.Denom := old(Mod)["escrow"][obj.Balance.Denom] - old(obj.Balance.Amount)]]
+//@                              && Bank == old(Bank)[unbech32(obj.Owner) := old(Bank)[unbech32(obj.Owner)][obj.Balance.Denom := old(Bank)[unbech32(obj.Owner)][obj.Balance.Denom] + old(obj.Balance.Amount)]]
+//@   ensures [g] result == nil ==> (forall d: str :: G[k.skey][d] == old(G)[k.skey][d]
+//@                - storeWeight(aKey(obj.ID), old(KVhas)[k.skey][aKey(obj.ID)], old(KVval)[k.skey][aKey(obj.ID)], d))
+//@   ensures [gframe] forall sk: iface :: sk != k.skey ==> G[sk] == old(G)[sk]
+
+// j-th payment record stored under the account's payment prefix (key order)
+//@ spec recAt(has: map[str]bool, val: map[str]str, id: types.AccountID, j: int): types.Payment = decode(types.Payment, val[enumKey(has, apKey(id), j)])
+// number of open payments among the first k
+//@ spec openCount(has: map[str]bool, val: map[str]str, id: types.AccountID, k: int): int = ite(k <= 0, 0, openCount(has, val, id, k-1) + ite(recAt(has, val, id, k-1).State == types.PaymentOpen, 1, 0))
+
+//@ lemma openCountMono(has: map[str]bool, val: map[str]str, id: types.AccountID, i: int, k: int)
+//@   induction k
+//@   requires 0 <= i && i <= k
+//@   ensures openCount(has, val, id, i) <= openCount(has, val, id, k) && 0 <= openCount(has, val, id, i) && openCount(has, val, id, k) <= k
+//@   trigger openCount(has, val, id, i), openCount(has, val, id, k)
+
+//@ lemma openCountStrict(has: map[str]bool, val: map[str]str, id: types.AccountID, i: int, k: int)
+//@   induction k
+//@   requires 0 <= i && i < k && recAt(has, val, id, i).State == types.PaymentOpen
+//@   ensures openCount(has, val, id, i) < openCount(has, val, id, k)
+//@   trigger openCount(has, val, id, i), openCount(has, val, id, k)
+
+//@ func (*keeper).accountPayments
+//@   modifies ghost It_all
+//@   ensures [len] len(result) == enumLen(KVhas[k.skey], apKey(id))
+//@   ensures [elems] forall j: int :: 0 <= j && j < len(result) ==> result[j] == recAt(KVhas[k.skey], KVval[k.skey], id, j)
+//@   ensures [fresh] len(result) > 0 ==> fresh(result)
+//@   loop 1 invariant ItHas[iter] == KVhas[k.skey] && ItVal[iter] == KVval[k.skey] && ItPrefix[iter] == apKey(id)
+//@   loop 1 invariant ItPos[iter] == len(payments) && len(payments) <= enumLen(KVhas[k.skey], apKey(id))
+//@   loop 1 invariant forall j: int :: 0 <= j && j < len(payments) ==> payments[j] == recAt(KVhas[k.skey], KVval[k.skey], id, j)
+//@   loop 1 invariant cap(payments) > 0 ==> fresh(payments)
+
+//@ func (*keeper).accountOpenPayments
+//@   modifies ghost It_all
+//@   ensures [len] len(result) == openCount(KVhas[k.skey], KVval[k.skey], id, enumLen(KVhas[k.skey], apKey(id)))
+//@   ensures [elems] forall i: int :: 0 <= i && i < enumLen(KVhas[k.skey], apKey(id)) && recAt(KVhas[k.skey], KVval[k.skey], id, i).State == types.PaymentOpen ==>
+//@               result[openCount(KVhas[k.skey], KVval[k.skey], id, i)] == recAt(KVhas[k.skey], KVval[k.skey], id, i)
+//@   ensures [fresh] fresh(result)
+//@   loop 1 invariant 0 <= iter && iter <= len(allPayments)
+//@   loop 1 invariant len(payments) == openCount(KVhas[k.skey], KVval[k.skey], id, iter) && len(payments) <= iter && cap(payments) == len(allPayments)
+//@   loop 1 invariant forall i: int :: 0 <= i && i < iter && recAt(KVhas[k.skey], KVval[k.skey], id, i).State == types.PaymentOpen ==>
+//@               payments[openCount(KVhas[k.skey], KVval[k.skey], id, i)] == recAt(KVhas[k.skey], KVval[k.skey], id, i)
+//@   loop 1 invariant fresh(payments) && root(payments) != root(allPayments)
+//@   loop 1 invariant forall j: int :: 0 <= j && j < len(allPayments) ==> allPayments[j] == recAt(KVhas[k.skey], KVval[k.skey], id, j)
+
+//@ property C03 := (*keeper).paymentWithdraw#*, (*keeper).accountWithdraw#*, lemma:openCountMono, lemma:openCountStrict, (*keeper).accountPayments#*, (*keeper).accountOpenPayments#*, (*keeper).GetAccount#*, (*keeper).GetPayment#*, (*keeper).saveAccount#*, (*keeper).savePayment#*
